@@ -197,7 +197,7 @@ class ReplicaCheck:
         sub = vlib.extract_subtrace(allf, ln)
         first = json.loads(sub[0])["ev"]
         recname = first.get("rec", "")
-        d = os.path.join(ROOT, "replays", f"{pid}-{tier}-seed{seed}")
+        d = os.path.join(ROOT, "replays", f"{pid}-{tier}-seed{seed}{vlib.REPLAY_TAG}")
         shutil.rmtree(d, ignore_errors=True)
         os.makedirs(d)
         for r in recs:
